@@ -5,7 +5,12 @@ HERE = os.path.dirname(os.path.abspath(__file__))
 
 
 def harness_files(tier, seed):
-    return [os.path.join(HERE, 'hC18.py')]
+    files = [os.path.join(HERE, 'hC18.py')]
+    if tier == 'thorough':
+        # 96 nested handler structures drawn from a grammar with VERIF_SEED (regenerated at import from the seed)
+        os.environ['VERIF_SEED'] = str(seed)
+        files.append(os.path.join(HERE, 'hC18g.py'))
+    return files
 
 
 META = dict(
@@ -16,6 +21,7 @@ META = dict(
             "callable, mapping keyed on list/subclass, deferring only); direct and nested (also inside List[Inner]); both directions; "
             "HasConverter type, int subclass, list subclass with a registered global handler",
     stubs=["marking converters installed by each source (they are inputs of the property)"],
-    outside=["handlers for types other than int/list/subclass/protocol types"],
+    outside=["handlers for types other than int/list/subclass/protocol types",
+             "quick tier: class families are enumerated; thorough tier adds 96 nested handler structures drawn from a grammar with VERIF_SEED"],
     assumptions=["oracle: the total order written in props/hC18.py winner()"],
 )
